@@ -1,7 +1,7 @@
 (* BackendsProofs.v — index rendering commutes with the index base; shift-once bookkeeping; cshift(-k) = roll(k);
    the jax lax.scan solvers produce the rows of the Python loop; Heun: equal for autonomous right-hand sides without
    buffer aliasing, refuted otherwise. *)
-From Coq Require Import List ZArith QArith Qcanon Lia Bool Arith.
+From Coq Require Import List ZArith QArith Qcanon Lia Bool Arith Qround.
 From PV Require Import History Backends.
 Import ListNotations.
 Open Scope nat_scope.
@@ -515,3 +515,18 @@ Proof. vm_compute. intros H E. first [discriminate H | discriminate E]. Qed.
 (* since fix D108 (switch fixed_fortran_pi = true): no guard needed *)
 Lemma backend_pi_full b : backend_pi b = pi_f64.
 Proof. destruct b; vm_compute; reflexivity. Qed.
+
+(* ================================================================================================ step-count cadence *)
+Lemma round_half_even_Z (m : Z) : round_half_even (Q2Qc (inject_Z m)) = m.
+Proof.
+  unfold round_half_even.
+  assert (F : Qfloor (this (Q2Qc (inject_Z m))) = m).
+  { cbn [this Q2Qc]. rewrite (Qfloor_comp _ _ (Qred_correct (inject_Z m))). apply Qfloor_Z. }
+  rewrite F. replace (Q2Qc (inject_Z m) - Q2Qc (inject_Z m))%Qc with (Q2Qc 0) by ring. reflexivity.
+Qed.
+
+(* a sampling step that is an integer multiple m of the step size gives store_step = m, whatever the (non-zero) step size *)
+Lemma cadence_multiple (dt : Qc) (m : Z) : dt <> Q2Qc 0 -> round_half_even ((Q2Qc (inject_Z m) * dt) / dt)%Qc = m.
+Proof.
+  intros H. replace ((Q2Qc (inject_Z m) * dt) / dt)%Qc with (Q2Qc (inject_Z m)) by (field; exact H). apply round_half_even_Z.
+Qed.
